@@ -61,7 +61,7 @@ def gen_workload(tape, *, max_funcs=5, max_size=3, allow_gen=True, allow_tuple=T
         name = f"s{counters['s']}"
         counters["s"] += 1
         inputs[name] = {"axes": [], "kind": "scalar", "base": 0,
-                        "value": tape.pick(["str", "str", "str", "zero", "empty", "none", "false", "tuple", "float", "nan"], "scalar-value")}
+                        "value": tape.pick(["str", "str", "str", "zero", "empty", "none", "false", "tuple", "float", "nan", "unicode"], "scalar-value")}
         scalars.append(name)
         return name
 
@@ -179,6 +179,7 @@ def gen_workload(tape, *, max_funcs=5, max_size=3, allow_gen=True, allow_tuple=T
             else:
                 scalars.append(o)
     _none_only_for_leaves(funcs)
+    _maybe_same_names(tape, funcs)
     if tape.coin(0.12, "scoped-inputs"):
         roots = [n for n, d in inputs.items() if d["kind"] in ("scalar", "list", "ndarray")]
         if len(roots) >= 2:
@@ -198,7 +199,24 @@ def gen_workload(tape, *, max_funcs=5, max_size=3, allow_gen=True, allow_tuple=T
                 d["shadow_default"] = tape.pick([-1, -1, 1], "shadow-len")  # default is shorter / longer than the input
     w = {"indices": idx_size, "inputs": inputs, "functions": funcs,
          "internal_via": tape.pick(["pipefunc", "map-arg", "both"], "internal-via")}
+    if tape.coin(0.07, "greek-axes"):
+        _rename_axes(w, dict(zip(IDX_NAMES, GREEK)))  # index names are identifiers: non-ASCII letters are fine
     return w
+
+
+GREEK = ["θ", "φ", "ψ", "λ", "μ", "ν", "ξ", "ρ", "σ", "τ"]
+
+
+def _rename_axes(w, ren):
+    import re
+
+    pat = re.compile(r"(?<![\w.])(" + "|".join(map(re.escape, ren)) + r")(?![\w.])")
+    w["indices"] = {ren.get(a, a): n for a, n in w["indices"].items()}
+    for d in w["inputs"].values():
+        d["axes"] = [ren.get(a, a) for a in d["axes"]]
+    for fd in w["functions"]:
+        if fd.get("mapspec"):
+            fd["mapspec"] = pat.sub(lambda m: ren[m.group(1)], fd["mapspec"])
 
 
 def _array_value(name, d, shape):
@@ -253,6 +271,15 @@ def _apply_scope(funcs, inputs, names, scope):
     return {ren.get(k, k): v for k, v in inputs.items()}
 
 
+def _maybe_same_names(tape, funcs):
+    """Several PipeFuncs wrapping functions with the same __name__ (one function used twice with other output names,
+    lambdas, factory-made functions): only output names have to be unique."""
+    if len(funcs) >= 2 and tape.coin(0.08, "same-named-functions"):
+        for fd in funcs:
+            if tape.coin(0.7, "shares-name"):
+                fd["public_name"] = "step"
+
+
 def _none_only_for_leaves(funcs):
     """A function may return None only if nobody consumes its output: as an argument None would make the
     terms of different downstream calls equal, and every exactly-once oracle relies on their injectivity."""
@@ -268,7 +295,7 @@ def build_inputs(w):
     for name, d in w["inputs"].items():
         if d["kind"] == "scalar":
             out[name] = {"zero": 0, "empty": "", "none": None, "false": False, "tuple": (), "float": 1.5,
-                         "nan": float("nan")}.get(d.get("value", "str"), f"{name}-val")
+                         "nan": float("nan"), "unicode": f"{name}-välue-θ"}.get(d.get("value", "str"), f"{name}-val")
         elif d["kind"] == "default":
             if d.get("provided"):
                 out[name] = f"{name}-given"
@@ -300,7 +327,8 @@ def build_pipeline(w, *, cached=(), tags=None, **pipeline_kwargs):
                 tag=(tags or {}).get(fd["name"], ""), none_mod=0 if fd.get("out_shape") else fd.get("none_mod", 0),
                 seq_out=bool(fd.get("seq_out")) and not fd.get("out_shape"),
                 outer={v: k for k, v in inner.items()}, dict_out=fd["outputs"] if fd.get("dict_out") else None,
-                result_like=bool(fd.get("result_like")) and not fd.get("out_shape") and not fd.get("none_mod"))
+                result_like=bool(fd.get("result_like")) and not fd.get("out_shape") and not fd.get("none_mod"),
+                public_name=fd.get("public_name"))
         out = fd["outputs"][0] if len(fd["outputs"]) == 1 else tuple(fd["outputs"])
         kw = {}
         if fd.get("out_shape") and w.get("internal_via", "pipefunc") in ("pipefunc", "both"):
@@ -354,6 +382,7 @@ def describe(w):
              **({"dict_out": True} if fd.get("dict_out") else {}),
              **({"debug": True} if fd.get("debug") else {}),
              **({"profile": True} if fd.get("profile") else {}),
+             **({"public_name": fd["public_name"]} if fd.get("public_name") else {}),
              **({"result_like": True} if fd.get("result_like") else {}),
              **({"bound": fd["bound"]} if fd.get("bound") else {}),
              **({"defaults": {**fd["defaults"], **fd["sig_defaults"]}} if fd.get("defaults") or fd.get("sig_defaults") else {})}
@@ -407,6 +436,7 @@ def gen_dag(tape, *, min_funcs=2, max_funcs=5, allow_tuple=True, allow_defaults=
         funcs.append(fd)
         values.extend(fd["outputs"])
     _none_only_for_leaves(funcs)
+    _maybe_same_names(tape, funcs)
     return {"indices": {}, "inputs": inputs, "functions": funcs, "internal_via": "pipefunc"}
 
 
